@@ -498,7 +498,7 @@ fn main() {
     let mut bm = None;
     let mut bounds = Vec::new();
     for (name, cfgs, depth) in plans(prop, &cli.tier) {
-        bounds.push(json!({"sweep": name, "depth": depth, "configurations": cfgs.len()}));
+        bounds.push(json!({"sweep": name, "depth": explore::depth_bound(depth), "configurations": cfgs.len()}));
         let sw = Sweep { name: name.to_string(), h: &PauseH, cfgs, depth };
         explore::explore(&sw, &opts, &mut acc, &mut bm);
     }
